@@ -38,6 +38,7 @@ type c16Case struct {
 	Base        string // HTTP carriers: base path on both sides ("" = "/")
 	ClientBidi  bool   // the client opens streams with a {client,server}-streaming descriptor whatever the method's flags (as generic proxies do)
 	SiblingView bool   // a second WithInterceptor view of the same parent registry is created before the service is registered through ours
+	Twin        bool   // in-process: a second service with the same short method names (other flags) is registered on the channel and called first
 	LateInt     bool   // in-process: the channel's interceptors are configured after the service was registered
 	NoSlash     bool   // the client names the method without the leading slash (both transports accept that); interceptors are still told the canonical name
 	Shared      bool   // the same decorated description is registered with a second carrier that has its own transport interceptors
@@ -52,6 +53,9 @@ type c16Case struct {
 	// HandlerPlain (with HandlerFail): the handler returns a plain Go error value; every interceptor on the way
 	// out is handed that very value (error mapping by identity works)
 	HandlerPlain bool
+	// HandlerBoth (with HandlerFail, unary): the handler returns a response value next to its error; every
+	// interceptor on the way out sees both
+	HandlerBoth bool
 }
 
 type c16Log struct {
@@ -105,7 +109,11 @@ func c16UnaryInt(id string, beh string, lg *c16Log, wantMethod string) grpc.Unar
 			return handler(ctx, &pb.Message{Count: m.Count + 100*n, Payload: m.Payload})
 		}
 		resp, err := handler(ctx, req)
-		lg.add("u-exit:%s", id)
+		if err != nil && resp != nil && !isNilIface(resp) {
+			lg.add("u-exit:%s+resp", id) // a response came back next to the error: results pass through unchanged
+		} else {
+			lg.add("u-exit:%s", id)
+		}
 		switch beh {
 		case "rw-resp":
 			if err == nil {
@@ -152,6 +160,11 @@ func c16StreamInt(id string, beh string, lg *c16Log) grpc.StreamServerIntercepto
 
 const c16Svc = "verif.I16"
 
+func isNilIface(x interface{}) bool {
+	v := reflect.ValueOf(x)
+	return v.Kind() == reflect.Ptr && v.IsNil()
+}
+
 // c16ErrSentinel: a plain (non-status) error value some handlers return; interceptors see that very value
 var c16ErrSentinel = errors.New("record not found")
 
@@ -170,10 +183,14 @@ func (c *c16Case) desc(lg *c16Log) *grpc.ServiceDesc {
 			h := func(ctx context.Context, req interface{}) (interface{}, error) {
 				lg.add("handler:%s[%s]", full, c16Marks(ctx))
 				if c.HandlerFail {
-					if c.HandlerPlain {
-						return nil, c16ErrSentinel
+					var partial interface{}
+					if c.HandlerBoth {
+						partial = &pb.Message{Count: 1, Code: 3}
 					}
-					return nil, status.Error(codes.DataLoss, "handler failed")
+					if c.HandlerPlain {
+						return partial, c16ErrSentinel
+					}
+					return partial, status.Error(codes.DataLoss, "handler failed")
 				}
 				return &pb.Message{Count: req.(*pb.Message).Count, Code: 7}, nil
 			}
@@ -272,12 +289,14 @@ func (c *c16Case) model() (log []string, count, code int32, errCode codes.Code) 
 	} else {
 		full = fmt.Sprintf("/%s/U%d", c16Svc, c.Index)
 	}
+	both := false // the failing handler's response value is still travelling next to the error
 	var run func(k int, cnt int32, marks []string) (int32, int32, codes.Code)
 	run = func(k int, cnt int32, marks []string) (int32, int32, codes.Code) {
 		ms := strings.Join(marks, "+")
 		if k == len(chain) {
 			log = append(log, "handler:"+full+"["+ms+"]")
 			if c.HandlerFail {
+				both = c.HandlerBoth && !c.CallStream
 				if c.HandlerPlain {
 					return 0, 0, c16SentinelCode
 				}
@@ -320,16 +339,22 @@ func (c *c16Case) model() (log []string, count, code int32, errCode codes.Code) 
 			return run(k+1, cnt+100*n, next)
 		}
 		a, b, ec := run(k+1, cnt, next)
-		log = append(log, "u-exit:"+e.id)
+		if ec != codes.OK && both {
+			log = append(log, "u-exit:"+e.id+"+resp")
+		} else {
+			log = append(log, "u-exit:"+e.id)
+		}
 		switch e.beh {
 		case "rw-resp":
 			if ec == codes.OK {
 				return a, b + 10*n, ec
 			}
 		case "rw-err":
+			both = false
 			return 0, 0, codes.Aborted
 		case "map-err":
 			if ec == c16SentinelCode {
+				both = false
 				return 0, 0, codes.NotFound
 			}
 		}
@@ -436,6 +461,28 @@ func propC16(c c16Case) *Outcome {
 				return o.failf("WithInterceptor with no interceptors returned a different registry")
 			}
 			r.RegisterService(d, srvObj)
+			if c.Twin {
+				// a second service on the same channel whose methods have the same short names (and other
+				// streaming flags); calls to it come first
+				td := &grpc.ServiceDesc{ServiceName: c16Svc + "twin", HandlerType: (*svcIface)(nil), Metadata: "twin.proto"}
+				for i := 0; i < c.NUnary; i++ {
+					td.Methods = append(td.Methods, grpc.MethodDesc{MethodName: fmt.Sprintf("U%d", i), Handler: func(srv interface{}, ctx context.Context, dec func(interface{}) error, interceptor grpc.UnaryServerInterceptor) (interface{}, error) {
+						in := new(pb.Message)
+						if err := dec(in); err != nil {
+							return nil, err
+						}
+						return &pb.Message{}, nil
+					}})
+				}
+				for _, st := range c.Streams {
+					td.Streams = append(td.Streams, grpc.StreamDesc{StreamName: st.Name, ClientStreams: !st.CS, ServerStreams: !st.SS, Handler: func(srv interface{}, stream grpc.ServerStream) error {
+						for stream.RecvMsg(new(pb.Message)) == nil {
+						}
+						return nil
+					}})
+				}
+				ch.RegisterService(td, srvObj)
+			}
 			if c.LateInt {
 				// the channel's interceptors are a property of the channel, consulted per call: configuring
 				// them after the services were registered makes no difference
@@ -494,6 +541,27 @@ func propC16(c c16Case) *Outcome {
 			if strings.HasPrefix(l.Unary, "sc-") || strings.HasPrefix(l.Stream, "sc-") {
 				o.NonTrivial = true
 			}
+		}
+		if c.Twin && c.Carrier == cInproc {
+			o.class("twin-service-called-first")
+			if s := guard("twin call", func() {
+				ctx, cancel := context.WithCancel(context.Background())
+				defer cancel()
+				if c.CallStream {
+					cs, err := conn.NewStream(ctx, &grpc.StreamDesc{ClientStreams: true, ServerStreams: true}, "/"+c16Svc+"twin/"+c.Streams[c.Index].Name)
+					if err == nil {
+						cs.CloseSend()
+						cs.RecvMsg(new(pb.Message))
+					}
+				} else {
+					conn.Invoke(ctx, fmt.Sprintf("/%stwin/U%d", c16Svc, c.Index), &pb.Message{}, new(pb.Message))
+				}
+			}); s != "" {
+				return o.failf("stall: %s", s)
+			}
+			lg.mu.Lock()
+			lg.ev = nil // only the judged call is compared with the model
+			lg.mu.Unlock()
 		}
 		var gotResp *pb.Message
 		var gotErr error
@@ -642,9 +710,11 @@ func genC16(t *rapid.T) c16Case {
 	}
 	c.HandlerFail = rapid.IntRange(0, 3).Draw(t, "hfail") == 0
 	c.HandlerPlain = c.HandlerFail && rapid.Bool().Draw(t, "hplain")
+	c.HandlerBoth = c.HandlerFail && rapid.Bool().Draw(t, "hboth")
 	c.ClientBidi = rapid.IntRange(0, 2).Draw(t, "clientbidi") == 0
 	c.NoSlash = rapid.IntRange(0, 4).Draw(t, "noslash") == 0
 	c.LateInt = rapid.IntRange(0, 3).Draw(t, "lateint") == 0
+	c.Twin = rapid.IntRange(0, 3).Draw(t, "twin") == 0
 	if isHTTP(c.Carrier) {
 		c.Base = rapid.SampledFrom([]string{"", "", "/api/", "/v1/rpc"}).Draw(t, "base")
 	}
